@@ -469,15 +469,7 @@ func runC13Restart(s *kernel.Sim) {
 			mb = 0 // exactly the options pool.go opens the database with
 		}
 		// (first in a process of its own: a failed badger.Open leaves goroutines behind that a simulated run cannot end with)
-		out, perr := exec.Command(os.Args[0], "-test.run", "^TestWorker$", "-mode", "openprobe", "-trace", img, "-tier", fmt.Sprint(mb)).CombinedOutput()
-		if perr != nil || !strings.Contains(string(out), "OPEN-") {
-			panic(fmt.Sprintf("openprobe: %v: %s", perr, out))
-		}
-		if !strings.Contains(string(out), "OPEN-OK") {
-			msg := string(out)
-			if i := strings.Index(msg, "OPEN-ERR: "); i >= 0 {
-				msg = strings.SplitN(msg[i+10:], "\n", 2)[0]
-			}
+		if ok, msg := probeOpen(img, mb); !ok {
 			s.Violate("crash_atomic", "database does not open after a crash that tore the last write", "%s: %d of the %d bytes of its write reached the file: the pool does not start again: %s", label, cut-from, to-from, msg)
 			return
 		}
@@ -643,6 +635,24 @@ func dumpDB(dir string, skipPrefix string) (map[string]string, error) {
 	return out, err
 }
 
+// probeOpen opens the database directory in a process of its own and reports whether badgerstore.Open succeeded: a
+// failed Open leaves goroutines of the database behind that a simulated run cannot end with. The directory is changed
+// as Open changes it (migration included): hand it a copy.
+func probeOpen(dir string, mb int) (bool, string) {
+	out, perr := exec.Command(os.Args[0], "-test.run", "^TestWorker$", "-mode", "openprobe", "-trace", dir, "-tier", fmt.Sprint(mb)).CombinedOutput()
+	if perr != nil || !strings.Contains(string(out), "OPEN-") {
+		panic(fmt.Sprintf("openprobe: %v: %s", perr, out))
+	}
+	if strings.Contains(string(out), "OPEN-OK") {
+		return true, ""
+	}
+	msg := string(out)
+	if i := strings.Index(msg, "OPEN-ERR: "); i >= 0 {
+		msg = strings.SplitN(msg[i+10:], "\n", 2)[0]
+	}
+	return false, msg
+}
+
 func runC13Migrate(s *kernel.Sim) {
 	dir := seams.ScratchDir(s, "c13m")
 	imgRoot := seams.ScratchDir(s, "c13mimg")
@@ -747,6 +757,19 @@ func runC13Migrate(s *kernel.Sim) {
 	}
 	delete(beforeDump, "vip:version")
 
+	// --- does it open at all (asked of a copy, in a process of its own: see probeOpen)
+	{
+		img := imgRoot + "/probe"
+		if err := seams.CopyDir(dir, img); err != nil {
+			panic(err)
+		}
+		ok, msg := probeOpen(img, 1)
+		os.RemoveAll(img)
+		if !ok {
+			s.Violate("migrate", "supported old-format database does not open", "format %d (%d node records, %d saved nonces): Open failed: %s", version, nn+crowd, len(savedNonces), msg)
+			return
+		}
+	}
 	// --- open through the driver, with a crash image at the migration's yield point
 	seams.InstallTxnHook(s)
 	s.SetYield("txn", 1)
@@ -770,10 +793,20 @@ func runC13Migrate(s *kernel.Sim) {
 		img := fmt.Sprintf("%s/m%d", imgRoot, imgs)
 		seams.CopyDir(dir, img)
 		s.SetYield("txn", 0)
+		img2 := img + "p"
+		seams.CopyDir(img, img2)
+		ok, msg := probeOpen(img2, 1)
+		os.RemoveAll(img2)
+		if !ok {
+			os.RemoveAll(img)
+			s.Violate("migrate_crash", "database does not open after a crash during migration", "image %d: %s", imgs, msg)
+			s.SetYield("txn", 1)
+			s.ReleaseFirst()
+			continue
+		}
 		st2, err := badgerstore.Open(seams.BadgerOptions(img, 1))
 		if err != nil {
-			s.Violate("migrate_crash", "database does not open after a crash during migration", "image %d: %v", imgs, err)
-			return
+			panic(err)
 		}
 		if diff := storeVsModel(st2, ref); diff != "" {
 			s.Violate("migrate_crash", "crash during migration changes nodes or balances", "image %d: %s", imgs, diff)
